@@ -828,35 +828,6 @@ func ruleIntrospectionSources(r *Run) {
 	if h == nil {
 		return
 	}
-	m := 0
-	for fn := range r.P.CG.Reachable([]*ssa.Function{h}, nil) {
-		for _, ins := range allInstrs(fn) {
-			var fa *ssa.FieldAddr
-			what := ""
-			switch x := ins.(type) {
-			case *ssa.Store:
-				if f, ok := x.Addr.(*ssa.FieldAddr); ok && namedOf(f.X.Type()) == modPath+".Gateway" {
-					fa, what = f, "store"
-				}
-			case ssa.CallInstruction:
-				// method with pointer receiver on a Gateway field (sync.Map.Store, mutex, …)
-				c := x.Common()
-				if !c.IsInvoke() && len(c.Args) > 0 && c.Signature().Recv() != nil {
-					if f, ok := c.Args[0].(*ssa.FieldAddr); ok && namedOf(f.X.Type()) == modPath+".Gateway" {
-						fa, what = f, "call "+calleeDesc(c)
-					}
-				}
-			}
-			if fa == nil {
-				continue
-			}
-			m++
-			r.Bad("R3b", fnName(fn), what+" on Gateway."+fieldOf(fa).Name(), r.P.pos(ins.Pos()), "request-handling code writes state of the Gateway object (shared by all requests): the schema/routing/answers a request sees must not depend on earlier requests (e.g. a cache keyed without the request's variables or operation name)")
-		}
-	}
-	if m == 0 {
-		r.OK("R3b", fnName(h), "Gateway state is read-only on the request path", r.P.pos(h.Pos()), "no store to, and no pointer-receiver method call on, a field of Gateway in any function reachable from Handler")
-	}
 	// the three consumers of the schema on the request path read the one field Gateway.schema
 	k := 0
 	for fn := range r.P.CG.Reachable([]*ssa.Function{h}, nil) {
